@@ -182,6 +182,9 @@ namespace epsic
 
     Matrix<4,4, double> get_crosscovariance (unsigned ilag) const
     {
+      if (ilag == 0)
+        return get_covariance();
+
       if (ilag >= smooth)
         return 0;
 
@@ -236,6 +239,9 @@ namespace epsic
     //! Return cross-covariance between Stokes parameters as a function of lag
     Matrix<4,4, double> get_crosscovariance (unsigned ilag) const
     {
+      if (ilag == 0)
+        return get_covariance();
+
       if (ilag >= width)
         return 0;
 
